@@ -16,12 +16,12 @@ def cfg_voteset(powers, sigvars, ikinds, maxops, peers='{"p1"}'):
             "PROPERTY InvalidNoOp\nCONSTRAINT Bound\nACTION_CONSTRAINT Dump\n") % (
         BLOCKS, peers, sigvars, ikinds, maxops)
 
-ALLK = '{"height", "round", "type", "index", "addr", "sig", "chain"}'
+ALLK = '{"height", "heightlow", "round", "roundlow", "type", "index", "addr", "sig", "chain"}'
 
 def run(c):
     thorough = c.tier == "thorough"
     c.rule = ("every transition of the reachable graph of MC_VoteSet (valid votes in two signature variants, "
-              "7 kinds of invalid votes, peer majority claims) is replayed from the empty set into the real "
+              "9 kinds of invalid votes, peer majority claims) is replayed from the empty set into the real "
               "types.VoteSet at one of three power scales (x1, x7, total just below MaxTotalVotingPower) and "
               "result class + all observers + MakeCommit/VerifyCommit/CommitToVoteSet are compared; "
               "non-trivial = last step is not a plain first vote; plus every abstract commit of MC_Commit "
@@ -31,8 +31,8 @@ def run(c):
     # (powers, sigvars, ikinds, maxops, stride quick, stride thorough)
     vectors = [
         ((1, 1, 1), "{1, 2}", ALLK, 0, 8, 1),
-        ((1, 1, 1, 1), "{1}", '{"round", "sig"}', 5 if not thorough else 6, 4, 2),
-        ((2, 1, 1, 1, 1), "{1}", '{"type"}', 4 if not thorough else 5, 2, 2),
+        ((1, 1, 1, 1), "{1}", '{"round", "roundlow", "sig"}', 5 if not thorough else 6, 4, 2),
+        ((2, 1, 1, 1, 1), "{1}", '{"type", "heightlow"}', 4 if not thorough else 5, 2, 2),
         ((3, 2, 2, 2), "{1}", '{"addr"}', 5 if not thorough else 6, 4, 2),
         ((5, 1, 1), "{1, 2}", '{"index", "chain"}', 5 if not thorough else 7, 2, 1),
     ]
